@@ -105,20 +105,24 @@ def run_cond(shard, ctx):
     tier, seed = shard["tier"], shard["seed"]
     kind, Dx, Dy = shard["kind"], shard["Dx"], shard["Dy"]
     vis = [0, 1, 100] if tier == "quick" else [0, 1, 2, 100, 101]
-    for vi in vis:
+    from . import _affine
+
+    for vi, ctor in [(v, c) for v in vis for c in _affine.ctors_for(kind)]:
+        if ctor != "Sigma" and vi != 0:
+            continue
         for Rq in BOUNDS[tier]["R"][:3]:
             for Rc in sorted({1, Rq}) if kind in ("full", "diag") else (1,):
-                if not ctx.case(dict(vi=vi, Rq=Rq, Rc=Rc)):
+                if not ctx.case(dict(vi=vi, Rq=Rq, Rc=Rc, ctor=ctor)):
                     continue
                 tag = ("c14c", kind, Dx, Dy)
                 M = objs.mat_batch(Dy, Dx, Rc, vi, seed, tag)
                 b = objs.vecn_batch(Dy, Rc, vi, seed, tag)
                 Sy = objs.spd_batch(Dy, Rc, vi, seed, tag, diag="diag" in kind)
-                cond, kw, (M, b, Sy) = objs.mk_cond(kind, M, b, Sy)
+                cond, kw, (M, b, Sy) = objs.mk_cond(kind, M, b, Sy, ctor=ctor)
                 Sq = objs.spd_batch(Dx + Dy, Rq, vi + 1, seed, tag + ("q",))
                 mq = objs.vec_batch(Dx + Dy, Rq, vi + 1, seed, tag + ("q",))
                 q = objs.mk_pdf("GaussianPDF", Sq, mq)
-                facts = dict(Rq=Rq, Rc=Rc)
+                facts = dict(Rq=Rq, Rc=Rc, ctor=ctor)
                 with ctx.guard("log_conditional.call", facts) as g:
                     got = np.asarray(cond.integrate_log_conditional(q, **kw))
                 if g.ok:
